@@ -73,7 +73,7 @@ def main(argv=None):
         'samples': m['samples'] or ['(no sample recorded)'],
         'observed': {k: int(v) for k, v in sorted(c.items()) if k != 'evaluations'},
         'observed_distinct': {k: len(v) for k, v in sorted(m['sets'].items())},
-        'observed_values': {k: sorted(v)[:120] for k, v in sorted(m['sets'].items()) if len(v) <= 400},
+        'observed_values': {k: sorted(v)[:120] for k, v in sorted(m['sets'].items()) if len(v) <= 120},
         'shards': len(specs),
         'known_findings_seen': {k: int(v) for k, v in sorted(m['known'].items())},
         'unknown_violation_kinds': dict(m['violation_counts']),
